@@ -553,8 +553,8 @@ pub fn run(ctx: &Ctx) -> Report {
         eprintln!("MACHINERY FAILURE: interposition self-test failed: {}", e);
         std::process::exit(2);
     }
-    let depth = ctx.tier.pick(2, 4);
-    let errnos: Vec<i32> = ctx.tier.pick(vec![libc::EIO, libc::EACCES], vec![libc::EIO, libc::ENOSPC, libc::EACCES]);
+    let depth = ctx.tier.pick(3, 4);
+    let errnos: Vec<i32> = vec![libc::EIO, libc::ENOSPC, libc::EACCES];
     let scs = scenarios(ctx.tier);
     let results: Vec<(usize, u64, u64, Vec<Found>, Vec<String>)> = scs.par_iter().map(|sc| run_scenario(sc, depth, &errnos, ctx)).collect();
     let mut traces = vec![];
